@@ -316,7 +316,7 @@ FN[r'rcu_list::erase'] = dict(
     props='C05 C12 C13', setup=ERASE_SETUP,
     requires=['vf_LST == self && iter->m_current == &vf_mid && g_victim == &vf_mid && ' + ERASE_FRESH + ' && !self->m_write_mutex.excl_me && self->m_write_mutex.shared_me == 0 && '
               'self->m_write_mutex.guards == 0 && vf_held == 0 && !vf_exc && (vf_mid.back.v == 0 || vf_mid.back.v == (void *)&vf_hn) && (vf_mid.next.v == 0 || vf_mid.next.v == (void *)&vf_tn) && ' + R3],
-    ensures=[('C05 C12', ONE_CS, 'erase - including the test-and-set of the deleted flag that makes a second erase a no-op - is one critical section of m_write_mutex, released on every exit'),
+    ensures=[('C05 C12 C13', ONE_CS, 'erase - including the test-and-set of the deleted flag that makes a second erase a no-op (so that a node is logged, hence destroyed and freed, once) - is one critical section of m_write_mutex, released on every exit'),
              ('C12', '(!vf_exc && !__CPROVER_old(vf_mid.deleted)) ==> (vf_mid.deleted && g_chain_stores == 1 && g_unlinked && '
                      '(__CPROVER_old(vf_mid.back.v) != 0 ? vf_hn.next.v == __CPROVER_old(vf_mid.next.v) : self->m_head.v == __CPROVER_old(vf_mid.next.v)) && '
                      '(__CPROVER_old(vf_mid.next.v) != 0 ? vf_tn.back.v == __CPROVER_old(vf_mid.back.v) : self->m_tail.v == __CPROVER_old(vf_mid.back.v)))',
@@ -324,7 +324,7 @@ FN[r'rcu_list::erase'] = dict(
              ('C12', 'vf_mid.next.v == __CPROVER_old(vf_mid.next.v) && vf_mid.back.v == __CPROVER_old(vf_mid.back.v)', "the erased node's own links are left intact (a traversal standing on it continues)"),
              ('C05', '(!vf_exc && !__CPROVER_old(vf_mid.deleted)) ==> (g_rec_allocs == 1 && g_rec_pushes == 1 && g_rec_published)',
               'the node is logged exactly once, after the unlink (order and content of the record: model assertions at the successful CAS)'),
-             ('C05 C12', '__CPROVER_old(vf_mid.deleted) ==> (g_chain_stores == 0 && g_rec_allocs == 0 && g_rec_pushes == 0 && self->m_head.v == __CPROVER_old(self->m_head.v) && self->m_tail.v == __CPROVER_old(self->m_tail.v))',
+             ('C05 C12 C13', '__CPROVER_old(vf_mid.deleted) ==> (g_chain_stores == 0 && g_rec_allocs == 0 && g_rec_pushes == 0 && self->m_head.v == __CPROVER_old(self->m_head.v) && self->m_tail.v == __CPROVER_old(self->m_tail.v))',
               'a second erase of the same node is a no-op'),
              ('C12', '!vf_exc ==> vf_ret->m_current == __CPROVER_old(vf_mid.next.v)', 'returns an iterator to the successor'),
              ('C05', 'g_node_frees == 0 && g_node_destroys == 0 && g_rec_frees == 0', 'erase itself never destroys or frees anything'),
